@@ -465,6 +465,12 @@ private:
                                 .count())
       : std::numeric_limits<uint64_t>::max();
 
+    // Reload the thread contexts after ts_now is taken. A thread that logs for the first time between
+    // an earlier reload and the clock read above would otherwise be skipped by this pass, although its
+    // statement is older than ts_now, and later statements (or a flush request) of other threads
+    // would be processed before it
+    _update_active_thread_contexts_cache();
+
     size_t cached_transit_events_count{0};
 
     for (ThreadContext* thread_context : _active_thread_contexts_cache)
